@@ -151,21 +151,12 @@ Section Redo.
       assert (H2 : Ext (init s) r2) by (eapply Ext_trans; eassumption).
       destruct ok; cbn [negb fst]; [|apply (shaped_blob_only s), H2].
       eapply (shaped_write_then r2 _ _ _ (or_intror I) s H2). apply delete_unused_ext.
-    - unfold op_startup. rewrite Hu. cbn [fst]. apply (shaped_blob_only s).
-      eapply Ext_trans; [|apply delete_unused_ext].
-      generalize (debris s). intros ds. generalize (init s). induction ds as [|d ds IH]; intros r; cbn; [apply Ext_refl|].
-      apply (Ext_trans _ (emit r (ERmDebris d))); [apply Ext_emit; [apply Ext_refl | exact I] | apply IH].
+    - apply (shaped_blob_only s), op_startup_ext.
   Qed.
 
   (** ** the manifests at a clean crash point, after the restart *)
-  Lemma rm_debris_mans ds : forall r, mans (rs (fold_left (fun r d => emit r (ERmDebris d)) ds r)) = mans (rs r).
-  Proof. induction ds as [|d ds IH]; intros r; cbn [fold_left]; [reflexivity|]. rewrite IH. reflexivity. Qed.
-
   Lemma recover_mans s : mans (recover s) = mans s.
-  Proof.
-    unfold Ops.recover, Ops.exec, op_run, op_startup. destruct (has_unreadable s); [reflexivity|]. cbn [fst].
-    rewrite (Ext_mans _ _ (delete_unused_ext _ _)). rewrite rm_debris_mans. reflexivity.
-  Qed.
+  Proof. unfold Ops.recover, Ops.exec, op_run. apply (Ext_mans _ _ (op_startup_ext s)). Qed.
 
   Lemma clean_crash_mans s o k :
     Inv s -> op_guard s o = true -> has_unreadable s = false -> has_unreadable (crash s o k) = false ->
